@@ -73,7 +73,7 @@ func main() {
 	fabio := fs.String("fabio", "", "path of the fabio binary built from /repo")
 	scale := fs.Float64("scale", 1, "workload scale (the driver runs the race build on a sample)")
 	fs.Parse(os.Args[2:])
-	if *dir == "" {
+	if *dir == "" && name != "c15-usage" { // (the usage child ends in flag's os.Exit: a scratch directory would stay behind)
 		d, err := os.MkdirTemp("/var/tmp", "vh-")
 		if err != nil {
 			panic(err)
